@@ -466,6 +466,17 @@ def leaf_heter(out):
                     raise Untranslatable('doProcessIf: cannot tell how callableIndex is read')
     if tagpos is None or typedpos is None or skip is None:
         raise Untranslatable('doProcessIf: tag test or typed access not found in the loop')
+    # how an accepted event is dispatched: through doDispatchQueuedEvent — the dispatcher stored with the item when it was
+    # enqueued, as process() and processOne() do — or by a call that selects the prototype again
+    disp = set()
+    for n in walk(loop):
+        if n.get('kind') in ('CXXMemberCallExpr', 'CallExpr') and kids(n):
+            nm = call_name(n) if n.get('kind') == 'CXXMemberCallExpr' else member_name(kids(n)[0])
+            if nm in ('doDispatchQueuedEvent', 'doDispatchQueuedItem', 'directDispatch', 'dispatch'):
+                disp.add(nm)
+    if not disp:
+        raise Untranslatable('doProcessIf: no dispatch call found in the loop')
+    via_stored = disp == {'doDispatchQueuedEvent'}
     checks_first = tagpos < typedpos and tag_via_base
     if not checks_first and not (typedpos < tagpos and tag_via_typed_var):
         raise Untranslatable('doProcessIf: unrecognised order of tag test and typed access')
@@ -538,12 +549,15 @@ Definition processif_next_start (index : Z) : Z := %s.
 Definition processif_next_search_over_remaining : bool := %s.
 (* the tag is read through QueuedItemBase and tested before the slot is accessed as QueuedItem<ArgsTuple> *)
 Definition processif_checks_tag_before_typed_read : bool := %s.
+(* an accepted event is dispatched through doDispatchQueuedEvent(item), i.e. by the dispatcher stored with the item when it
+   was enqueued (as in process / processOne), not by a call that selects the prototype again from the stored arguments *)
+Definition processif_dispatches_via_stored_dispatcher : bool := %s.
 
 (* bool HeterEventQueueBase::emptyQueue() const *)
 Definition heter_empty_queue (list_empty : bool) (empty_counter : Z) : bool := %s.
 ''' % (fpc['guard'], fpc['index'], fpc['next'], fpc['end'], c_start,
        fpa['index'], fpa['next'], fpa['end'], a_start,
-       enabled, skip, next_start, b(over_remaining), b(checks_first), empty_queue)
+       enabled, skip, next_start, b(over_remaining), b(checks_first), b(via_stored), empty_queue)
 
 
 LEAVES = [('heter', leaf_heter)]
